@@ -18,6 +18,15 @@ if [ ! -f "$ROOT/.work/util/.stamp-$UV" ]; then
   ( cd "$ROOT/.work/util" && "$ROOT/.work/bin/vinstr" -inplace broadcast keyed routine ccontainer promise refcount backoff csync conc )
   touch "$ROOT/.work/util/.stamp-$UV"
 fi
+# private, instrumented copy of controllerbus (its bus / directive-controller locks become scheduling points)
+CV=$(cd /repo && go list -m -f '{{.Version}}' github.com/aperturerobotics/controllerbus)
+if [ ! -f "$ROOT/.work/controllerbus/.stamp-$CV" ]; then
+  rm -rf "$ROOT/.work/controllerbus"
+  cp -r "$(go env GOMODCACHE)/github.com/aperturerobotics/controllerbus@$CV" "$ROOT/.work/controllerbus"
+  chmod -R u+w "$ROOT/.work/controllerbus"
+  ( cd "$ROOT/.work/controllerbus" && "$ROOT/.work/bin/vinstr" -inplace bus bus/inmem directive directive/controller controller/loader controller/resolver controller/resolver/static controller/exec )
+  touch "$ROOT/.work/controllerbus/.stamp-$CV"
+fi
 if [ $ENSURE = 0 ]; then
   # warm the build cache: compile every property harness once
   W="$ROOT/.work/run/_setup"; rm -rf "$W"; mkdir -p "$W"
